@@ -451,6 +451,23 @@ def parse_dot(path):
     return nodes, edges, init
 
 
+def mc_calls(tier, seed):
+    """calls overlapping on one source: per-call buffers (the code), a mutex held for the whole call, a pool with
+    single release hold; a shared buffer, a mutex around the reads only, a double release are counterexamples"""
+    nc = "{a, b, c}" if tier == "thorough" else "{a, b}"
+    base = 'SPECIFICATION Spec\nCONSTANTS Calls = %s N = 4 MaxFail = 2 BufImpl = "%s"\nINVARIANTS OwnBytesOnly NoForeignByte ExclusiveBuffers LockSane\nCHECK_DEADLOCK FALSE\n'
+    res = []
+    for impl in ("percall", "lockedcall", "pooled"):
+        r = vlib.run_mc("MC_Calls", base % (nc if impl != "pooled" else "{a, b, c}", impl), workers=4, timeout=600)
+        r["module"] = "MC_Calls[%s]" % impl
+        res.append(r)
+    for impl in ("shared", "lockedread", "pooledtwice"):
+        r = vlib.run_mc("MC_Calls", base % ("{a, b, c}", impl), workers=4, timeout=600, expect_violation="is violated")
+        r["module"] = "MC_Calls[%s control]" % impl
+        res.append(r)
+    return res
+
+
 def mc_reader(tier, seed):
     res = []
     for w in (12, 15, 18, 21, 24):
@@ -618,7 +635,7 @@ def replay_c06(path, binary):
     return (len(mine) == 0, "%s: %d events, %d failing" % ("overlap scenarios run again" if cut is not None else "re-executed", len(lines), len(mine)))
 
 
-RECIPES["C06"] = dict(mc=[mc_reader], record=record_c06, replay=replay_c06, props=["C06", "DRIFT"], exhaustive=True,
+RECIPES["C06"] = dict(mc=[mc_reader, mc_calls], record=record_c06, replay=replay_c06, props=["C06", "DRIFT"], exhaustive=True,
                       speaks=lambda e: e.get("op") in ("NewMnemonic", "Read"),
                       rule="one scripted reader per edge of MC_Reader's state graph (every delivered count k -> k', every failure kind EOF/unexpected EOF/other with or "
                            "without bytes alongside, (0,nil) reads) for each of the five word counts, plus all two-piece splits and 1-byte reads; distinct by (count, language, reads)")
@@ -745,7 +762,7 @@ def replay_c07(path, binary):
     return (len(mine) == 0, "re-ran a fresh process under strace: %d events, %d failing" % (len(lines), len(mine)))
 
 
-RECIPES["C07"] = dict(mc=[lambda t, s_: mc_history(t, s_)], record=record_c07, replay=replay_c07, props=["C07", "DRIFT"],
+RECIPES["C07"] = dict(mc=[lambda t, s_: mc_history(t, s_), mc_calls], record=record_c07, replay=replay_c07, props=["C07", "DRIFT"],
                       speaks=lambda e: e.get("op") in ("Swap", "NewMnemonic", "OSRandom"),
                       rule="one fresh process per (language, word count): two NewMnemonic calls on the untouched default source under strace (the bytes the kernel's getrandom "
                            "delivered must encode to the returned mnemonic), the identity of the pre-swap source, a scripted call, and a default call after swapping back; "
@@ -1116,7 +1133,7 @@ def replay_c12(path, binary):
     return (True, "20 concurrent re-executions, no race report and all results equal to the sequential ones")
 
 
-RECIPES["C12"] = dict(mc=[mc_once, apalache_once, mc_drive_conc], record=record_c12, replay=replay_c12, props=["C12"], race=True, no_confirm=True,
+RECIPES["C12"] = dict(mc=[mc_once, apalache_once, mc_drive_conc, mc_calls], record=record_c12, replay=replay_c12, props=["C12"], race=True, no_confirm=True,
                       speaks=lambda e: e.get("conc") or e.get("op") == "RaceReport",
                       rule="goroutine programs generated by Drive_Conc (all first-use shapes of 3 goroutines x 3 language slots, all operation mixes of 2 goroutines), language slots "
                            "rotating through all ordered pairs, 1-11 replicas of each goroutine, each in a fresh process of a -race build; every return validated natively and "
